@@ -755,178 +755,6 @@ Theorem C01_legacy_refuted :
 Proof. first [ exact C01.C01_legacy_refuted | intros; eapply C01.C01_legacy_refuted; eassumption ]. Qed.
 End P_C01.
 
-(* ------------------------------------------------------------------ C07 *)
-From Model Require Import Bytes Wire Uri Hdr Message Msg StaticRoute RoundRobin Pins Proxy RunProxy SpecC14 SpecProxy SpecProxy2.
-From Model.proofs Require C07.
-Section P_C07.
-Import C07.
-Theorem C07_stamp : forall peer port m pre h post v rest,
-  m_headers m = pre ++ h :: post -> nomatch VIA pre -> same_header (h_name h) VIA = true ->
-  hval_vias (h_val h) = Some (v :: rest) ->
-  s_set_received peer port m =
-    ({| m_start := m_start m;
-        m_headers := pre ++ {| h_name := h_name h; h_val := HVia (stamp peer port v :: rest) |} :: post;
-        m_body := m_body m |}, Ok tt).
-Proof. first [ exact C07.C07_stamp | intros; eapply C07.C07_stamp; eassumption ]. Qed.
-Theorem C07_stamp_params : forall peer port v,
-  v_params (stamp peer port v) =
-    (if kv_has (s2b "rport") (kv_set (s2b "received") peer (v_params v))
-     then kv_set (s2b "rport") (itoa port) (kv_set (s2b "received") peer (v_params v))
-     else kv_set (s2b "received") peer (v_params v)) /\
-  v_name (stamp peer port v) = v_name v /\ v_version (stamp peer port v) = v_version v /\
-  v_transport (stamp peer port v) = v_transport v /\ v_host (stamp peer port v) = v_host v /\
-  v_port (stamp peer port v) = v_port v.
-Proof. first [ exact C07.C07_stamp_params | intros; eapply C07.C07_stamp_params; eassumption ]. Qed.
-Theorem C07_kv_set_char : forall k v l,
-  kv_get k (kv_set k v l) = Some v /\
-  (forall k', k' <> k -> kv_get k' (kv_set k v l) = kv_get k' l) /\
-  filter (fun p => negb (beq (k_key p) k)) (kv_set k v l) = filter (fun p => negb (beq (k_key p) k)) l /\
-  (kv_has k l = true -> exists a p b, l = a ++ p :: b /\ k_key p = k /\ kv_get k a = None /\
-                                      kv_set k v l = a ++ {| k_key := k_key p; k_val := v |} :: b) /\
-  (kv_has k l = false -> kv_set k v l = l ++ [{| k_key := k; k_val := v |}]).
-Proof. first [ exact C07.C07_kv_set_char | intros; eapply C07.C07_kv_set_char; eassumption ]. Qed.
-Theorem C07_pipeline : forall e peer port from rs tcp m0 x x',
-  is_request m0 = true ->
-  process_message e peer port from rs tcp m0 x = Ok x' ->
-  exists outs, x_outs x' = x_outs x ++ outs /\
-               Forall (relayed_as (e_branch e) (stamp_hdrs rs peer port (via_hdrs m0))) outs.
-Proof. first [ exact C07.C07_pipeline | intros; eapply C07.C07_pipeline; eassumption ]. Qed.
-Theorem C07_wiring : forall lc,
-  item_rs_of true lc = negb (lc_no_received lc) /\
-  pa_received_support (wire_proxy lc) = negb (lc_no_received lc).
-Proof. first [ exact C07.C07_wiring | intros; eapply C07.C07_wiring; eassumption ]. Qed.
-Theorem C07_wiring_legacy : forall lc, item_rs_of false lc = lc_def_route lc.
-Proof. first [ exact C07.C07_wiring_legacy | intros; eapply C07.C07_wiring_legacy; eassumption ]. Qed.
-Theorem C07_wired_reachable : forall fx c st, fx_wiring fx = true -> reachable fx c st -> wired c (st_conns st).
-Proof. first [ exact C07.C07_wired_reachable | intros; eapply C07.C07_wired_reachable; eassumption ]. Qed.
-Theorem C07_step_udp : forall fx c now br st li src sport data lc m rest st' outs,
-  nth_opt (c_listens c) li = Some lc -> parse_message data = Ok (m, rest) -> is_request m = true ->
-  proxy_step fx c now br st (EvUdp li src sport data) = Ok (st', outs) ->
-  Forall (relayed_as br (stamp_hdrs (item_rs_of (fx_wiring fx) lc) src sport (via_hdrs m))) outs.
-Proof. first [ exact C07.C07_step_udp | intros; eapply C07.C07_step_udp; eassumption ]. Qed.
-Theorem C07_step_tcp : forall fx c now br st cid data cn lc st' outs,
-  find (fun x => Nat.eqb (cn_id x) cid) (st_conns st) = Some cn ->
-  nth_opt (c_listens c) (cn_li cn) = Some lc ->
-  proxy_step fx c now br st (EvTcpData cid data) = Ok (st', outs) ->
-  exists oss, outs = List.concat oss /\
-    Forall2 (fun m os => is_request m = true ->
-               Forall (relayed_as br (stamp_hdrs (cn_received_support cn) (cn_peer cn) (cn_peer_port cn) (via_hdrs m))) os)
-            (firstn (List.length oss) (parse_stream (S (List.length data)) data)) oss.
-Proof. first [ exact C07.C07_step_tcp | intros; eapply C07.C07_step_tcp; eassumption ]. Qed.
-End P_C07.
-
-(* ------------------------------------------------------------------ C02 *)
-From Model Require Import Bytes Wire Uri Hdr Message Msg StaticRoute RoundRobin Pins Proxy RunProxy SpecC14 SpecProxy SpecProxy2.
-From Model.proofs Require C07 C02.
-Section P_C02.
-Import C07 C02.
-Theorem C02_response_general : forall e from m x, is_request m = false ->
-  match top_view (pop_view (via_hdrs m)) with
-  | Some v2 =>
-      exists m4 pins',
-        handle_message e from m x =
-          send_message e (hop_host v2) (hop_port v2) (v_transport v2) m4
-            {| x_learned := x_learned x; x_p := with_pins (x_p x) pins'; x_conns := x_conns x;
-               x_world := x_world x; x_outs := x_outs x |} /\
-        m_start m4 = m_start m /\ m_body m4 = m_body m /\ via_hdrs m4 = pop_view (via_hdrs m)
-  | None => fst (handle_message e from m x) = x
-  end.
-Proof. first [ exact C02.C02_response_general | intros; eapply C02.C02_response_general; eassumption ]. Qed.
-Theorem C02_response_hop : forall e from m x v1 v2 rest1 t,
-  is_response m = true ->
-  (via_hdrs m = Some (v1 :: v2 :: rest1) :: t          (* comma list in the first Via header *)
-   \/ via_hdrs m = Some [v1] :: Some (v2 :: rest1) :: t)  (* repeated header lines *) ->
-  exists m4 pins',
-    handle_message e from m x =
-      send_message e (hop_host v2) (hop_port v2) (v_transport v2) m4
-        {| x_learned := x_learned x; x_p := with_pins (x_p x) pins'; x_conns := x_conns x;
-           x_world := x_world x; x_outs := x_outs x |} /\
-    m_start m4 = m_start m /\ m_body m4 = m_body m /\
-    via_hdrs m4 = Some (v2 :: rest1) :: t /\
-    snd (decode_all_vias (m_headers m)) = v1 :: snd (decode_all_vias (m_headers m4)).
-Proof. first [ exact C02.C02_response_hop | intros; eapply C02.C02_response_hop; eassumption ]. Qed.
-Theorem C02_single_via_dropped : forall e from m x,
-  is_response m = true ->
-  (via_hdrs m = [] \/ (exists l, via_hdrs m = [Some l] /\ (List.length l <= 1)%nat)) ->
-  fst (handle_message e from m x) = x.
-Proof. first [ exact C02.C02_single_via_dropped | intros; eapply C02.C02_single_via_dropped; eassumption ]. Qed.
-Theorem C02_undecodable_dropped : forall e from m x t,
-  is_response m = true ->
-  (via_hdrs m = None :: t                                  (* first Via header does not decode *)
-   \/ (exists l, via_hdrs m = Some l :: None :: t /\ (List.length l <= 1)%nat)  (* the next one does not *)
-   \/ (exists l, via_hdrs m = Some l :: Some [] :: t /\ (List.length l <= 1)%nat)) ->
-  fst (handle_message e from m x) = x.
-Proof. first [ exact C02.C02_undecodable_dropped | intros; eapply C02.C02_undecodable_dropped; eassumption ]. Qed.
-Theorem C02_dest_unsupported : forall e host port tr m x,
-  supported_proto (to_lower tr) = false ->
-  x_outs (fst (send_message e host port tr m x)) = x_outs x.
-Proof. first [ exact C02.C02_dest_unsupported | intros; eapply C02.C02_dest_unsupported; eassumption ]. Qed.
-Theorem C02_dest_udp : forall e host port tr m x ip,
-  to_lower tr = s2b "udp" -> get_ip (e_cfg e) host = Some ip -> resolvable ip port = true ->
-  udp_slot_ok ip port (x_p x) -> fits_datagram (write_message (sent_msg m)) = true ->
-  x_outs (fst (send_message e host port tr m x)) = x_outs x ++ [(DUdp ip port, write_message (sent_msg m))].
-Proof. first [ exact C02.C02_dest_udp | intros; eapply C02.C02_dest_udp; eassumption ]. Qed.
-Theorem C02_dest_tcp : forall e host port tr m x,
-  fx_udp_via_listener (e_fx e) = true -> to_lower tr = s2b "tcp" -> tcp_slot_ok (x_p x) ->
-  exists outs, x_outs (fst (send_message e host port tr m x)) = x_outs x ++ outs /\
-               tcp_shape (write_message (sent_msg m)) outs.
-Proof. first [ exact C02.C02_dest_tcp | intros; eapply C02.C02_dest_tcp; eassumption ]. Qed.
-Theorem C02_tcp_slot_reachable : forall fx c st,
-  fx_udp_via_listener fx = true -> reachable fx c st -> Forall tcp_slot_ok (st_proxies st).
-Proof. first [ exact C02.C02_tcp_slot_reachable | intros; eapply C02.C02_tcp_slot_reachable; eassumption ]. Qed.
-Theorem C02_independent_of_pins : forall e from m x pins' rr' gen' l',
-  is_response m = true -> fx_udp_via_listener (e_fx e) = true -> udp_known (x_p x) ->
-  let y := {| x_learned := l'; x_p := graft pins' rr' gen' (x_p x); x_conns := x_conns x;
-              x_world := x_world x; x_outs := x_outs x |} in
-  x_outs (fst (handle_message e from m y)) = x_outs (fst (handle_message e from m x)) /\
-  x_conns (fst (handle_message e from m y)) = x_conns (fst (handle_message e from m x)) /\
-  x_world (fst (handle_message e from m y)) = x_world (fst (handle_message e from m x)).
-Proof. first [ exact C02.C02_independent_of_pins | intros; eapply C02.C02_independent_of_pins; eassumption ]. Qed.
-Theorem C02_roundtrip_return : forall e from r x br t0 src sport v rest t,
-  is_response r = true -> (int_min <= sport <= int_max)%Z ->
-  via_hdrs r = Some [own_via br t0] :: Some (stamp src sport v :: rest) :: t ->
-  exists m4 pins',
-    handle_message e from r x =
-      send_message e src (if kv_has (s2b "rport") (v_params v) then sport else via_get_port v) (v_transport v) m4
-        {| x_learned := x_learned x; x_p := with_pins (x_p x) pins'; x_conns := x_conns x;
-           x_world := x_world x; x_outs := x_outs x |} /\
-    via_hdrs m4 = Some (stamp src sport v :: rest) :: t.
-Proof. first [ exact C02.C02_roundtrip_return | intros; eapply C02.C02_roundtrip_return; eassumption ]. Qed.
-Theorem C02_roundtrip : forall e src sport from tcp q x x' v rest t,
-  is_request q = true -> via_hdrs q = Some (v :: rest) :: t -> (int_min <= sport <= int_max)%Z ->
-  process_message e src sport from true tcp q x = Ok x' ->
-  exists outs, x_outs x' = x_outs x ++ outs /\
-    Forall (fun o =>
-      match fst o with
-      | DDial _ _ _ => snd o = []
-      | _ => exists q', snd o = write_message q' /\
-          (via_hdrs q' = Some (stamp src sport v :: rest) :: t
-           \/ exists t0, via_hdrs q' = Some [own_via (e_branch e) t0] :: Some (stamp src sport v :: rest) :: t /\
-                forall e2 from2 r y, is_response r = true -> via_hdrs r = via_hdrs q' ->
-                  exists m4 pins',
-                    handle_message e2 from2 r y =
-                      send_message e2 src (if kv_has (s2b "rport") (v_params v) then sport else via_get_port v)
-                        (v_transport v) m4
-                        {| x_learned := x_learned y; x_p := with_pins (x_p y) pins'; x_conns := x_conns y;
-                           x_world := x_world y; x_outs := x_outs y |} /\
-                    via_hdrs m4 = Some (stamp src sport v :: rest) :: t)
-      end) outs.
-Proof. first [ exact C02.C02_roundtrip | intros; eapply C02.C02_roundtrip; eassumption ]. Qed.
-Theorem C02_process_response : forall e peer port from rs tcp m0 x x',
-  is_response m0 = true ->
-  process_message e peer port from rs tcp m0 x = Ok x' ->
-  match top_view (pop_view (via_hdrs m0)) with
-  | Some v2 =>
-      exists m4 pins',
-        x' = fst (send_message e (hop_host v2) (hop_port v2) (v_transport v2) m4
-                   {| x_learned := x_learned x; x_p := with_pins (x_p x) pins'; x_conns := x_conns x;
-                      x_world := x_world x; x_outs := x_outs x |}) /\
-        m_start m4 = m_start m0 /\ m_body m4 = m_body m0 /\ via_hdrs m4 = pop_view (via_hdrs m0)
-  | None => x_outs x' = x_outs x /\ x_conns x' = x_conns x /\ x_world x' = x_world x /\ x_learned x' = x_learned x
-  end.
-Proof. first [ exact C02.C02_process_response | intros; eapply C02.C02_process_response; eassumption ]. Qed.
-End P_C02.
-
 (* ------------------------------------------------------------------ C06 *)
 From Model Require Import Bytes Wire Uri Hdr Message Msg StaticRoute RoundRobin Pins Proxy RunProxy SpecC14 SpecProxy SpecProxy2.
 From Model.proofs Require C06 C13 C03.
@@ -1419,64 +1247,6 @@ Theorem C12_accept_key_differs host port t : t <> [] -> full_addr tcp host port 
 Proof. first [ exact C12.accept_key_differs | intros; eapply C12.accept_key_differs; eassumption ]. Qed.
 End P_C12.
 
-(* ------------------------------------------------------------------ C13 *)
-From Model Require Import Bytes Wire Uri Hdr Message Msg StaticRoute RoundRobin Pins Proxy RunProxy SpecC14 SpecProxy SpecProxy2.
-From Model.proofs Require C06 C13.
-Section P_C13.
-Import C06 C13.
-Theorem C13_own_popped_iff : forall c from m,
-  route_view (fst (mtry (try_remove_top_route c from) m)) =
-  match route_view m with
-  | EDec e1 :: rest => if designates c from e1 then rest else route_view m
-  | _ => route_view m
-  end.
-Proof. first [ exact C13.try_remove_top_route_pops_iff_own | intros; eapply C13.try_remove_top_route_pops_iff_own; eassumption ]. Qed.
-Theorem C13_next_hop_popped_iff_not_keep : forall keep m,
-  match route_view m with
-  | EDec rp :: rest =>
-      route_view (fst (next_hop_by_route keep m)) = (if keep then EDec rp :: rest else rest) /\
-      snd (next_hop_by_route keep m) =
-        match na_addr (r_addr rp) with
-        | ASip u => Ok (u_host u, sip_uri_get_port u, sip_uri_transport u)
-        | AAbs _ => Err
-        end
-  | _ => route_view (fst (next_hop_by_route keep m)) = route_view m /\ is_ok (snd (next_hop_by_route keep m)) = false
-  end.
-Proof. first [ exact C13.next_hop_by_route_pops_iff_not_keep | intros; eapply C13.next_hop_by_route_pops_iff_not_keep; eassumption ]. Qed.
-Theorem C13_route : forall e peer peer_port from rs tcp m0 x x',
-  is_request m0 = true ->
-  process_message e peer peer_port from rs tcp m0 x = Ok x' ->
-  exists extra, x_outs x' = x_outs x ++ extra /\ (msg_count extra <= 1)%nat /\
-    forall o, In o extra -> is_msg o = true ->
-      exists mo, snd o = write_message mo /\
-                 route_view mo = skipn (route_consumed (e_cfg e) from (c_keep_next_hop (e_cfg e)) (route_view m0))
-                                       (route_view m0).
-Proof. first [ exact C13.C13_route | intros; eapply C13.C13_route; eassumption ]. Qed.
-Theorem C13_route_decoded : forall e peer peer_port from rs tcp m0 x x' entries,
-  is_request m0 = true ->
-  route_view m0 = map EDec entries ->
-  process_message e peer peer_port from rs tcp m0 x = Ok x' ->
-  let own := own_of (e_cfg e) from entries in
-  let remaining := if own then tl entries else entries in
-  let k := ((if own then 1 else 0) +
-            (match remaining with _ :: _ => if c_keep_next_hop (e_cfg e) then 0 else 1 | [] => 0 end))%nat in
-  exists extra, x_outs x' = x_outs x ++ extra /\ (msg_count extra <= 1)%nat /\
-    forall o, In o extra -> is_msg o = true ->
-      exists mo, snd o = write_message mo /\ route_view mo = map EDec (skipn k entries).
-Proof. first [ exact C13.C13_route_decoded | intros; eapply C13.C13_route_decoded; eassumption ]. Qed.
-Theorem C13_route_view_grammar : forall l, l <> [] -> forallb wf_relem l = true ->
-  hval_entries (HRaw (rp_route l)) = map EDec (map C14_hdr.embed_relem l).
-Proof. first [ exact C13.route_view_grammar | intros; eapply C13.route_view_grammar; eassumption ]. Qed.
-Theorem C13_route_header_text : forall l, forallb wf_relem l = true ->
-  hval_print (HRoute (map C14_hdr.embed_relem l)) = rp_route l.
-Proof. first [ exact C13.route_header_text | intros; eapply C13.route_header_text; eassumption ]. Qed.
-Theorem C13_keep_setting_decides : forall setting env, setting <> [] ->
-  to_keep_next_hop_route setting env = truthy setting.
-Proof. first [ exact C13.C13_keep_setting_decides | intros; eapply C13.C13_keep_setting_decides; eassumption ]. Qed.
-Theorem C13_keep_env_default : forall env, to_keep_next_hop_route [] env = truthy env.
-Proof. first [ exact C13.C13_keep_env_default | intros; eapply C13.C13_keep_env_default; eassumption ]. Qed.
-End P_C13.
-
 (* ------------------------------------------------------------------ C04 *)
 From Model Require Import Bytes Wire Uri Hdr Message Msg StaticRoute RoundRobin Pins Proxy RunProxy SpecC14 SpecProxy SpecProxy2.
 From Model.proofs Require C04.
@@ -1687,3 +1457,419 @@ Theorem C04_key_neq_dialog : forall meth branch d,
   meth ++ "-"%char :: branch <> d.
 Proof. first [ exact C04.key_neq_dialog | intros; eapply C04.key_neq_dialog; eassumption ]. Qed.
 End P_C04.
+
+(* ------------------------------------------------------------------ C07 *)
+From Model Require Import Bytes Wire Uri Hdr Message Msg StaticRoute RoundRobin Pins Proxy RunProxy SpecC14 SpecProxy SpecProxy2.
+From Model.proofs Require C07 C07_bridge.
+Section P_C07.
+Import C07 C07_bridge.
+Theorem C07_stamp : forall peer port m pre h post v rest,
+  m_headers m = pre ++ h :: post -> nomatch VIA pre -> same_header (h_name h) VIA = true ->
+  hval_vias (h_val h) = Some (v :: rest) ->
+  s_set_received peer port m =
+    ({| m_start := m_start m;
+        m_headers := pre ++ {| h_name := h_name h; h_val := HVia (stamp peer port v :: rest) |} :: post;
+        m_body := m_body m |}, Ok tt).
+Proof. first [ exact C07.C07_stamp | intros; eapply C07.C07_stamp; eassumption ]. Qed.
+Theorem C07_stamp_params : forall peer port v,
+  v_params (stamp peer port v) =
+    (if kv_has (s2b "rport") (kv_set (s2b "received") peer (v_params v))
+     then kv_set (s2b "rport") (itoa port) (kv_set (s2b "received") peer (v_params v))
+     else kv_set (s2b "received") peer (v_params v)) /\
+  v_name (stamp peer port v) = v_name v /\ v_version (stamp peer port v) = v_version v /\
+  v_transport (stamp peer port v) = v_transport v /\ v_host (stamp peer port v) = v_host v /\
+  v_port (stamp peer port v) = v_port v.
+Proof. first [ exact C07.C07_stamp_params | intros; eapply C07.C07_stamp_params; eassumption ]. Qed.
+Theorem C07_kv_set_char : forall k v l,
+  kv_get k (kv_set k v l) = Some v /\
+  (forall k', k' <> k -> kv_get k' (kv_set k v l) = kv_get k' l) /\
+  filter (fun p => negb (beq (k_key p) k)) (kv_set k v l) = filter (fun p => negb (beq (k_key p) k)) l /\
+  (kv_has k l = true -> exists a p b, l = a ++ p :: b /\ k_key p = k /\ kv_get k a = None /\
+                                      kv_set k v l = a ++ {| k_key := k_key p; k_val := v |} :: b) /\
+  (kv_has k l = false -> kv_set k v l = l ++ [{| k_key := k; k_val := v |}]).
+Proof. first [ exact C07.C07_kv_set_char | intros; eapply C07.C07_kv_set_char; eassumption ]. Qed.
+Theorem C07_pipeline : forall e peer port from rs tcp m0 x x',
+  is_request m0 = true ->
+  process_message e peer port from rs tcp m0 x = Ok x' ->
+  exists outs, x_outs x' = x_outs x ++ outs /\
+               Forall (relayed_as (e_branch e) (stamp_hdrs rs peer port (via_hdrs m0))) outs.
+Proof. first [ exact C07.C07_pipeline | intros; eapply C07.C07_pipeline; eassumption ]. Qed.
+Theorem C07_wiring : forall lc,
+  item_rs_of true lc = negb (lc_no_received lc) /\
+  pa_received_support (wire_proxy lc) = negb (lc_no_received lc).
+Proof. first [ exact C07.C07_wiring | intros; eapply C07.C07_wiring; eassumption ]. Qed.
+Theorem C07_wiring_legacy : forall lc, item_rs_of false lc = lc_def_route lc.
+Proof. first [ exact C07.C07_wiring_legacy | intros; eapply C07.C07_wiring_legacy; eassumption ]. Qed.
+Theorem C07_wired_reachable : forall fx c st, fx_wiring fx = true -> reachable fx c st -> wired c (st_conns st).
+Proof. first [ exact C07.C07_wired_reachable | intros; eapply C07.C07_wired_reachable; eassumption ]. Qed.
+Theorem C07_step_udp : forall fx c now br st li src sport data lc m rest st' outs,
+  nth_opt (c_listens c) li = Some lc -> parse_message data = Ok (m, rest) -> is_request m = true ->
+  proxy_step fx c now br st (EvUdp li src sport data) = Ok (st', outs) ->
+  Forall (relayed_as br (stamp_hdrs (item_rs_of (fx_wiring fx) lc) src sport (via_hdrs m))) outs.
+Proof. first [ exact C07.C07_step_udp | intros; eapply C07.C07_step_udp; eassumption ]. Qed.
+Theorem C07_step_tcp : forall fx c now br st cid data cn lc st' outs,
+  find (fun x => Nat.eqb (cn_id x) cid) (st_conns st) = Some cn ->
+  nth_opt (c_listens c) (cn_li cn) = Some lc ->
+  proxy_step fx c now br st (EvTcpData cid data) = Ok (st', outs) ->
+  exists oss, outs = List.concat oss /\
+    Forall2 (fun m os => is_request m = true ->
+               Forall (relayed_as br (stamp_hdrs (cn_received_support cn) (cn_peer cn) (cn_peer_port cn) (via_hdrs m))) os)
+            (firstn (List.length oss) (parse_stream (S (List.length data)) data)) oss.
+Proof. first [ exact C07.C07_step_tcp | intros; eapply C07.C07_step_tcp; eassumption ]. Qed.
+Theorem C07_judge_bridge_udp :
+  forall (pc : proxy_case) (st : jstate) (fx : fixes) (now : Z) (br : bytes) (li : nat) (lc : listen_cfg)
+         (src : bytes) (sport : Z) (data : bytes) (jin : jmsg) (m : message) (rest : bytes)
+         (x x' : ctx) (pre : list output) (keep : output -> bool) (closed : list nat),
+  let c := pc_cfg pc in
+  let e := mk_env fx c (item_rs_of (fx_wiring fx)) li lc now br in
+  fx_wiring fx = true ->
+  nth_opt (c_listens c) li = Some lc ->
+  j_read data = Some jin -> parse_message data = Ok (m, rest) ->
+  via_domain m ->
+  src_ok src -> branch_ok br ->
+  safe1 (lc_addr lc) = true -> 0 <= lc_udp lc <= 65535 -> 0 <= lc_tcp lc <= 65535 ->
+  (forall h t, alookup h (x_learned x) = Some t -> safe1 (t_addr t) = true /\ 0 <= t_port t <= 65535) ->
+  process_message e src sport {| t_kind := KUdp; t_addr := lc_addr lc; t_port := lc_udp lc |}
+                  (e_item_rs e) None m x = Ok x' ->
+  x_outs x' = x_outs x ++ pre ->
+  judge_C07_event pc st (EvUdp li src sport data) (map lab (filter keep pre)) closed = O.
+Proof. first [ exact C07_bridge.C07_judge_bridge_udp | intros; eapply C07_bridge.C07_judge_bridge_udp; eassumption ]. Qed.
+Theorem C07_judge_bridge_step :
+  forall (pc : proxy_case) (stj : jstate) (fx : fixes) (now : Z) (br : bytes) (st : state) (li : nat)
+         (lc : listen_cfg) (src : bytes) (sport : Z) (data : bytes) (jin : jmsg) (m : message) (rest : bytes)
+         (st' : state) (outs : list output) (keep : output -> bool) (closed : list nat),
+  fx_wiring fx = true -> nth_opt (c_listens (pc_cfg pc)) li = Some lc ->
+  j_read data = Some jin -> parse_message data = Ok (m, rest) ->
+  via_domain m -> src_ok src -> branch_ok br ->
+  safe1 (lc_addr lc) = true -> 0 <= lc_udp lc <= 65535 -> 0 <= lc_tcp lc <= 65535 ->
+  (forall h t, alookup h (st_learned st) = Some t -> safe1 (t_addr t) = true /\ 0 <= t_port t <= 65535) ->
+  proxy_step fx (pc_cfg pc) now br st (EvUdp li src sport data) = Ok (st', outs) ->
+  judge_C07_event pc stj (EvUdp li src sport data) (map lab (filter keep outs)) closed = O.
+Proof. first [ exact C07_bridge.C07_judge_bridge_step | intros; eapply C07_bridge.C07_judge_bridge_step; eassumption ]. Qed.
+End P_C07.
+
+(* ------------------------------------------------------------------ C13 *)
+From Model Require Import Bytes Wire Uri Hdr Message Msg StaticRoute RoundRobin Pins Proxy RunProxy SpecC14 SpecProxy SpecProxy2.
+From Model.proofs Require C06 C13 C13_bridge.
+Section P_C13.
+Import C06 C13 C13_bridge.
+Theorem C13_route_headers : forall e peer peer_port from rs tcp m0 x x',
+  is_request m0 = true ->
+  process_message e peer peer_port from rs tcp m0 x = Ok x' ->
+  exists extra, x_outs x' = x_outs x ++ extra /\ (msg_count extra <= 1)%nat /\
+    forall o, In o extra -> is_msg o = true ->
+      exists mo, snd o = write_message mo /\
+                 routed (fun hs => step_next (c_keep_next_hop (e_cfg e)) (step_own (e_cfg e) from hs)) m0 mo.
+Proof. first [ exact C13_bridge.C13_route_headers | intros; eapply C13_bridge.C13_route_headers; eassumption ]. Qed.
+Theorem C13_judge_bridge_udp :
+  forall pc st li lc src sport data closed jin m rest e rs x x',
+  nth_opt (c_listens (pc_cfg pc)) li = Some lc -> e_cfg e = pc_cfg pc -> e_lc e = lc ->
+  j_read data = Some jin -> parse_message data = Ok (m, rest) ->
+  is_request m = true ->
+  route_domain_in (RS m) ->
+  B7.via_domain m -> B7.src_ok src -> B7.branch_ok (e_branch e) ->
+  safe1 (lc_addr lc) = true -> (0 <= lc_udp lc <= 65535)%Z -> (0 <= lc_tcp lc <= 65535)%Z ->
+  (forall h t, alookup h (x_learned x) = Some t -> safe1 (t_addr t) = true /\ (0 <= t_port t <= 65535)%Z) ->
+  process_message e src sport (udp_transport lc) rs None m x = Ok x' ->
+  exists pre, x_outs x' = x_outs x ++ pre /\ (msg_count pre <= 1)%nat /\
+    forall vis, judge_C13_event pc st (EvUdp li src sport data) (map labelled (filter vis pre)) closed = 0%nat.
+Proof. first [ exact C13_bridge.C13_judge_bridge_udp | intros; eapply C13_bridge.C13_judge_bridge_udp; eassumption ]. Qed.
+Theorem C13_judge_bridge_step :
+  forall pc stj fx now br st st' outs li lc src sport data closed jin m rest,
+  nth_opt (c_listens (pc_cfg pc)) li = Some lc ->
+  j_read data = Some jin -> parse_message data = Ok (m, rest) ->
+  is_request m = true ->
+  route_domain_in (RS m) ->
+  B7.via_domain m -> B7.src_ok src -> B7.branch_ok br ->
+  safe1 (lc_addr lc) = true -> (0 <= lc_udp lc <= 65535)%Z -> (0 <= lc_tcp lc <= 65535)%Z ->
+  (forall h t, alookup h (st_learned st) = Some t -> safe1 (t_addr t) = true /\ (0 <= t_port t <= 65535)%Z) ->
+  proxy_step fx (pc_cfg pc) now br st (EvUdp li src sport data) = Ok (st', outs) ->
+  forall vis, judge_C13_event pc stj (EvUdp li src sport data) (map labelled (filter vis outs)) closed = 0%nat.
+Proof. first [ exact C13_bridge.C13_judge_bridge_step | intros; eapply C13_bridge.C13_judge_bridge_step; eassumption ]. Qed.
+Theorem C13_own_popped_iff : forall c from m,
+  route_view (fst (mtry (try_remove_top_route c from) m)) =
+  match route_view m with
+  | EDec e1 :: rest => if designates c from e1 then rest else route_view m
+  | _ => route_view m
+  end.
+Proof. first [ exact C13.try_remove_top_route_pops_iff_own | intros; eapply C13.try_remove_top_route_pops_iff_own; eassumption ]. Qed.
+Theorem C13_next_hop_popped_iff_not_keep : forall keep m,
+  match route_view m with
+  | EDec rp :: rest =>
+      route_view (fst (next_hop_by_route keep m)) = (if keep then EDec rp :: rest else rest) /\
+      snd (next_hop_by_route keep m) =
+        match na_addr (r_addr rp) with
+        | ASip u => Ok (u_host u, sip_uri_get_port u, sip_uri_transport u)
+        | AAbs _ => Err
+        end
+  | _ => route_view (fst (next_hop_by_route keep m)) = route_view m /\ is_ok (snd (next_hop_by_route keep m)) = false
+  end.
+Proof. first [ exact C13.next_hop_by_route_pops_iff_not_keep | intros; eapply C13.next_hop_by_route_pops_iff_not_keep; eassumption ]. Qed.
+Theorem C13_route : forall e peer peer_port from rs tcp m0 x x',
+  is_request m0 = true ->
+  process_message e peer peer_port from rs tcp m0 x = Ok x' ->
+  exists extra, x_outs x' = x_outs x ++ extra /\ (msg_count extra <= 1)%nat /\
+    forall o, In o extra -> is_msg o = true ->
+      exists mo, snd o = write_message mo /\
+                 route_view mo = skipn (route_consumed (e_cfg e) from (c_keep_next_hop (e_cfg e)) (route_view m0))
+                                       (route_view m0).
+Proof. first [ exact C13.C13_route | intros; eapply C13.C13_route; eassumption ]. Qed.
+Theorem C13_route_decoded : forall e peer peer_port from rs tcp m0 x x' entries,
+  is_request m0 = true ->
+  route_view m0 = map EDec entries ->
+  process_message e peer peer_port from rs tcp m0 x = Ok x' ->
+  let own := own_of (e_cfg e) from entries in
+  let remaining := if own then tl entries else entries in
+  let k := ((if own then 1 else 0) +
+            (match remaining with _ :: _ => if c_keep_next_hop (e_cfg e) then 0 else 1 | [] => 0 end))%nat in
+  exists extra, x_outs x' = x_outs x ++ extra /\ (msg_count extra <= 1)%nat /\
+    forall o, In o extra -> is_msg o = true ->
+      exists mo, snd o = write_message mo /\ route_view mo = map EDec (skipn k entries).
+Proof. first [ exact C13.C13_route_decoded | intros; eapply C13.C13_route_decoded; eassumption ]. Qed.
+Theorem C13_route_view_grammar : forall l, l <> [] -> forallb wf_relem l = true ->
+  hval_entries (HRaw (rp_route l)) = map EDec (map C14_hdr.embed_relem l).
+Proof. first [ exact C13.route_view_grammar | intros; eapply C13.route_view_grammar; eassumption ]. Qed.
+Theorem C13_route_header_text : forall l, forallb wf_relem l = true ->
+  hval_print (HRoute (map C14_hdr.embed_relem l)) = rp_route l.
+Proof. first [ exact C13.route_header_text | intros; eapply C13.route_header_text; eassumption ]. Qed.
+Theorem C13_keep_setting_decides : forall setting env, setting <> [] ->
+  to_keep_next_hop_route setting env = truthy setting.
+Proof. first [ exact C13.C13_keep_setting_decides | intros; eapply C13.C13_keep_setting_decides; eassumption ]. Qed.
+Theorem C13_keep_env_default : forall env, to_keep_next_hop_route [] env = truthy env.
+Proof. first [ exact C13.C13_keep_env_default | intros; eapply C13.C13_keep_env_default; eassumption ]. Qed.
+End P_C13.
+
+(* ------------------------------------------------------------------ C02 *)
+From Model Require Import Bytes Wire Uri Hdr Message Msg StaticRoute RoundRobin Pins Proxy RunProxy SpecC14 SpecProxy SpecProxy2.
+From Model.proofs Require C06 C13_bridge C07_bridge C07 C02 C02_bridge.
+Section P_C02.
+Import C06 C13_bridge C07_bridge C07 C02 C02_bridge.
+Theorem C02_judge_bridge_core :
+  forall (pc : proxy_case) (stj : jstate) (fx : fixes) (now : Z) (br : bytes) (st : state) (li : nat)
+         (lc : listen_cfg) (src : bytes) (sport : Z) (data : bytes) (jin : jmsg) (m : message) (rest : bytes)
+         (p : pstate) (st' : state) (outs : list output) (vis : output -> bool) (closed : list nat),
+  nth_opt (c_listens (pc_cfg pc)) li = Some lc -> nth_p (st_proxies st) li = Some p ->
+  j_read data = Some jin -> parse_message data = Ok (m, rest) ->
+  via_domain m -> via_lead_ok m ->
+  proxy_step fx (pc_cfg pc) now br st (EvUdp li src sport data) = Ok (st', outs) ->
+  (forall v1 v2 vrest m4 pins',
+     is_response m = true ->
+     flat_view (via_hdrs m) = v1 :: v2 :: vrest ->
+     outs = x_outs (fst (send_message (step_env fx (pc_cfg pc) li lc now br) (hop_host v2) (hop_port v2)
+                           (v_transport v2) m4 (pin_ctx st p pins'))) ->
+     write_message (sent_msg m4) = relayed_bytes fx (pc_cfg pc) now br st li lc p src sport m ->
+     dest_ok pc stj (j_dest (pc_cfg pc) (v_transport v2) (hop_host v2) (hop_port v2))
+             (msgs_of (map B13.labelled (filter vis outs))) = true) ->
+  judge_C02_event pc stj (EvUdp li src sport data) (map B13.labelled (filter vis outs)) closed = O.
+Proof. first [ exact C02_bridge.C02_judge_bridge_core | intros; eapply C02_bridge.C02_judge_bridge_core; eassumption ]. Qed.
+Theorem C02_judge_bridge_step_udp :
+  forall (pc : proxy_case) (stj : jstate) (fx : fixes) (now : Z) (br : bytes) (st : state) (li : nat)
+         (lc : listen_cfg) (src : bytes) (sport : Z) (data : bytes) (jin : jmsg) (m : message) (rest : bytes)
+         (p : pstate) (st' : state) (outs : list output) (closed : list nat)
+         (v1 v2 : via_param) (vrest : list via_param) (ip : bytes),
+  nth_opt (c_listens (pc_cfg pc)) li = Some lc -> nth_p (st_proxies st) li = Some p ->
+  j_read data = Some jin -> parse_message data = Ok (m, rest) ->
+  via_domain m -> via_lead_ok m ->
+  flat_view (via_hdrs m) = v1 :: v2 :: vrest ->
+  to_lower (v_transport v2) = s2b "udp" ->
+  get_ip (pc_cfg pc) (hop_host v2) = Some ip -> resolvable ip (hop_port v2) = true ->
+  udp_slot_ok ip (hop_port v2) p ->
+  fits_datagram (relayed_bytes fx (pc_cfg pc) now br st li lc p src sport m) = true ->
+  proxy_step fx (pc_cfg pc) now br st (EvUdp li src sport data) = Ok (st', outs) ->
+  judge_C02_event pc stj (EvUdp li src sport data)
+    (map B13.labelled (filter (visible (pc_udp_endpoints pc)) outs)) closed = O.
+Proof. first [ exact C02_bridge.C02_judge_bridge_step_udp | intros; eapply C02_bridge.C02_judge_bridge_step_udp; eassumption ]. Qed.
+Theorem C02_judge_bridge_step_drop :
+  forall (pc : proxy_case) (stj : jstate) (fx : fixes) (now : Z) (br : bytes) (st : state) (li : nat)
+         (lc : listen_cfg) (src : bytes) (sport : Z) (data : bytes) (jin : jmsg) (m : message) (rest : bytes)
+         (p : pstate) (st' : state) (outs : list output) (vis : output -> bool) (closed : list nat),
+  nth_opt (c_listens (pc_cfg pc)) li = Some lc -> nth_p (st_proxies st) li = Some p ->
+  j_read data = Some jin -> parse_message data = Ok (m, rest) ->
+  via_domain m ->
+  (List.length (flat_view (via_hdrs m)) <= 1)%nat ->
+  proxy_step fx (pc_cfg pc) now br st (EvUdp li src sport data) = Ok (st', outs) ->
+  judge_C02_event pc stj (EvUdp li src sport data) (map B13.labelled (filter vis outs)) closed = O.
+Proof. first [ exact C02_bridge.C02_judge_bridge_step_drop | intros; eapply C02_bridge.C02_judge_bridge_step_drop; eassumption ]. Qed.
+Theorem C02_judge_bridge_step_unsupported :
+  forall (pc : proxy_case) (stj : jstate) (fx : fixes) (now : Z) (br : bytes) (st : state) (li : nat)
+         (lc : listen_cfg) (src : bytes) (sport : Z) (data : bytes) (jin : jmsg) (m : message) (rest : bytes)
+         (p : pstate) (st' : state) (outs : list output) (vis : output -> bool) (closed : list nat)
+         (v1 v2 : via_param) (vrest : list via_param),
+  nth_opt (c_listens (pc_cfg pc)) li = Some lc -> nth_p (st_proxies st) li = Some p ->
+  j_read data = Some jin -> parse_message data = Ok (m, rest) ->
+  via_domain m -> via_lead_ok m ->
+  flat_view (via_hdrs m) = v1 :: v2 :: vrest ->
+  supported_proto (to_lower (v_transport v2)) = false ->
+  proxy_step fx (pc_cfg pc) now br st (EvUdp li src sport data) = Ok (st', outs) ->
+  judge_C02_event pc stj (EvUdp li src sport data) (map B13.labelled (filter vis outs)) closed = O.
+Proof. first [ exact C02_bridge.C02_judge_bridge_step_unsupported | intros; eapply C02_bridge.C02_judge_bridge_step_unsupported; eassumption ]. Qed.
+Theorem C02_judge_bridge_step_unresolved :
+  forall (pc : proxy_case) (stj : jstate) (fx : fixes) (now : Z) (br : bytes) (st : state) (li : nat)
+         (lc : listen_cfg) (src : bytes) (sport : Z) (data : bytes) (jin : jmsg) (m : message) (rest : bytes)
+         (p : pstate) (st' : state) (outs : list output) (vis : output -> bool) (closed : list nat)
+         (v1 v2 : via_param) (vrest : list via_param),
+  nth_opt (c_listens (pc_cfg pc)) li = Some lc -> nth_p (st_proxies st) li = Some p ->
+  j_read data = Some jin -> parse_message data = Ok (m, rest) ->
+  via_domain m -> via_lead_ok m ->
+  flat_view (via_hdrs m) = v1 :: v2 :: vrest ->
+  get_ip (pc_cfg pc) (hop_host v2) = None ->
+  proxy_step fx (pc_cfg pc) now br st (EvUdp li src sport data) = Ok (st', outs) ->
+  judge_C02_event pc stj (EvUdp li src sport data) (map B13.labelled (filter vis outs)) closed = O.
+Proof. first [ exact C02_bridge.C02_judge_bridge_step_unresolved | intros; eapply C02_bridge.C02_judge_bridge_step_unresolved; eassumption ]. Qed.
+Theorem C02_judge_bridge_step_tcp_partial :
+  forall (pc : proxy_case) (stj : jstate) (fx : fixes) (now : Z) (br : bytes) (st : state) (li : nat)
+         (lc : listen_cfg) (src : bytes) (sport : Z) (data : bytes) (jin : jmsg) (m : message) (rest : bytes)
+         (p : pstate) (st' : state) (outs : list output) (closed : list nat)
+         (v1 v2 : via_param) (vrest : list via_param) (ip : bytes),
+  nth_opt (c_listens (pc_cfg pc)) li = Some lc -> nth_p (st_proxies st) li = Some p ->
+  j_read data = Some jin -> parse_message data = Ok (m, rest) ->
+  via_domain m -> via_lead_ok m ->
+  flat_view (via_hdrs m) = v1 :: v2 :: vrest ->
+  to_lower (v_transport v2) = s2b "tcp" ->
+  get_ip (pc_cfg pc) (hop_host v2) = Some ip ->
+  fx_udp_via_listener fx = true -> tcp_slot_ok p ->
+  proxy_step fx (pc_cfg pc) now br st (EvUdp li src sport data) = Ok (st', outs) ->
+  tcp_quiet_ok pc stj ip (hop_port v2) outs ->
+  judge_C02_event pc stj (EvUdp li src sport data)
+    (map B13.labelled (filter (visible (pc_udp_endpoints pc)) outs)) closed = O.
+Proof. first [ exact C02_bridge.C02_judge_bridge_step_tcp_partial | intros; eapply C02_bridge.C02_judge_bridge_step_tcp_partial; eassumption ]. Qed.
+Theorem C02_judge_bridge_step_tcp_sent :
+  forall (pc : proxy_case) (stj : jstate) (fx : fixes) (now : Z) (br : bytes) (st : state) (li : nat)
+         (lc : listen_cfg) (src : bytes) (sport : Z) (data : bytes) (jin : jmsg) (m : message) (rest : bytes)
+         (p : pstate) (st' : state) (outs : list output) (closed : list nat)
+         (v1 v2 : via_param) (vrest : list via_param) (ip : bytes),
+  nth_opt (c_listens (pc_cfg pc)) li = Some lc -> nth_p (st_proxies st) li = Some p ->
+  j_read data = Some jin -> parse_message data = Ok (m, rest) ->
+  via_domain m -> via_lead_ok m ->
+  flat_view (via_hdrs m) = v1 :: v2 :: vrest ->
+  to_lower (v_transport v2) = s2b "tcp" ->
+  get_ip (pc_cfg pc) (hop_host v2) = Some ip ->
+  fx_udp_via_listener fx = true -> tcp_slot_ok p ->
+  proxy_step fx (pc_cfg pc) now br st (EvUdp li src sport data) = Ok (st', outs) ->
+  filter C06.is_msg outs <> [] ->
+  judge_C02_event pc stj (EvUdp li src sport data)
+    (map B13.labelled (filter (visible (pc_udp_endpoints pc)) outs)) closed = O.
+Proof. first [ exact C02_bridge.C02_judge_bridge_step_tcp_sent | intros; eapply C02_bridge.C02_judge_bridge_step_tcp_sent; eassumption ]. Qed.
+Theorem C02_judge_bridge_step_tcp_fresh :
+  forall (pc : proxy_case) (stj : jstate) (fx : fixes) (now : Z) (br : bytes) (st : state) (li : nat)
+         (lc : listen_cfg) (src : bytes) (sport : Z) (data : bytes) (jin : jmsg) (m : message) (rest : bytes)
+         (p : pstate) (st' : state) (outs : list output) (closed : list nat)
+         (v1 v2 : via_param) (vrest : list via_param) (ip : bytes),
+  tcp_agree pc stj st ip (hop_port v2) ->
+  nth_opt (c_listens (pc_cfg pc)) li = Some lc -> nth_p (st_proxies st) li = Some p ->
+  j_read data = Some jin -> parse_message data = Ok (m, rest) ->
+  via_domain m -> via_lead_ok m ->
+  flat_view (via_hdrs m) = v1 :: v2 :: vrest ->
+  to_lower (v_transport v2) = s2b "tcp" ->
+  get_ip (pc_cfg pc) (hop_host v2) = Some ip ->
+  fx_udp_via_listener fx = true -> tcp_fresh ip (hop_port v2) p ->
+  proxy_step fx (pc_cfg pc) now br st (EvUdp li src sport data) = Ok (st', outs) ->
+  judge_C02_event pc stj (EvUdp li src sport data)
+    (map B13.labelled (filter (visible (pc_udp_endpoints pc)) outs)) closed = O.
+Proof. first [ exact C02_bridge.C02_judge_bridge_step_tcp_fresh | intros; eapply C02_bridge.C02_judge_bridge_step_tcp_fresh; eassumption ]. Qed.
+Theorem C02_response_general : forall e from m x, is_request m = false ->
+  match top_view (pop_view (via_hdrs m)) with
+  | Some v2 =>
+      exists m4 pins',
+        handle_message e from m x =
+          send_message e (hop_host v2) (hop_port v2) (v_transport v2) m4
+            {| x_learned := x_learned x; x_p := with_pins (x_p x) pins'; x_conns := x_conns x;
+               x_world := x_world x; x_outs := x_outs x |} /\
+        m_start m4 = m_start m /\ m_body m4 = m_body m /\ via_hdrs m4 = pop_view (via_hdrs m)
+  | None => fst (handle_message e from m x) = x
+  end.
+Proof. first [ exact C02.C02_response_general | intros; eapply C02.C02_response_general; eassumption ]. Qed.
+Theorem C02_response_hop : forall e from m x v1 v2 rest1 t,
+  is_response m = true ->
+  (via_hdrs m = Some (v1 :: v2 :: rest1) :: t          (* comma list in the first Via header *)
+   \/ via_hdrs m = Some [v1] :: Some (v2 :: rest1) :: t)  (* repeated header lines *) ->
+  exists m4 pins',
+    handle_message e from m x =
+      send_message e (hop_host v2) (hop_port v2) (v_transport v2) m4
+        {| x_learned := x_learned x; x_p := with_pins (x_p x) pins'; x_conns := x_conns x;
+           x_world := x_world x; x_outs := x_outs x |} /\
+    m_start m4 = m_start m /\ m_body m4 = m_body m /\
+    via_hdrs m4 = Some (v2 :: rest1) :: t /\
+    snd (decode_all_vias (m_headers m)) = v1 :: snd (decode_all_vias (m_headers m4)).
+Proof. first [ exact C02.C02_response_hop | intros; eapply C02.C02_response_hop; eassumption ]. Qed.
+Theorem C02_single_via_dropped : forall e from m x,
+  is_response m = true ->
+  (via_hdrs m = [] \/ (exists l, via_hdrs m = [Some l] /\ (List.length l <= 1)%nat)) ->
+  fst (handle_message e from m x) = x.
+Proof. first [ exact C02.C02_single_via_dropped | intros; eapply C02.C02_single_via_dropped; eassumption ]. Qed.
+Theorem C02_undecodable_dropped : forall e from m x t,
+  is_response m = true ->
+  (via_hdrs m = None :: t                                  (* first Via header does not decode *)
+   \/ (exists l, via_hdrs m = Some l :: None :: t /\ (List.length l <= 1)%nat)  (* the next one does not *)
+   \/ (exists l, via_hdrs m = Some l :: Some [] :: t /\ (List.length l <= 1)%nat)) ->
+  fst (handle_message e from m x) = x.
+Proof. first [ exact C02.C02_undecodable_dropped | intros; eapply C02.C02_undecodable_dropped; eassumption ]. Qed.
+Theorem C02_dest_unsupported : forall e host port tr m x,
+  supported_proto (to_lower tr) = false ->
+  x_outs (fst (send_message e host port tr m x)) = x_outs x.
+Proof. first [ exact C02.C02_dest_unsupported | intros; eapply C02.C02_dest_unsupported; eassumption ]. Qed.
+Theorem C02_dest_udp : forall e host port tr m x ip,
+  to_lower tr = s2b "udp" -> get_ip (e_cfg e) host = Some ip -> resolvable ip port = true ->
+  udp_slot_ok ip port (x_p x) -> fits_datagram (write_message (sent_msg m)) = true ->
+  x_outs (fst (send_message e host port tr m x)) = x_outs x ++ [(DUdp ip port, write_message (sent_msg m))].
+Proof. first [ exact C02.C02_dest_udp | intros; eapply C02.C02_dest_udp; eassumption ]. Qed.
+Theorem C02_dest_tcp : forall e host port tr m x,
+  fx_udp_via_listener (e_fx e) = true -> to_lower tr = s2b "tcp" -> tcp_slot_ok (x_p x) ->
+  exists outs, x_outs (fst (send_message e host port tr m x)) = x_outs x ++ outs /\
+               tcp_shape (write_message (sent_msg m)) outs.
+Proof. first [ exact C02.C02_dest_tcp | intros; eapply C02.C02_dest_tcp; eassumption ]. Qed.
+Theorem C02_tcp_slot_reachable : forall fx c st,
+  fx_udp_via_listener fx = true -> reachable fx c st -> Forall tcp_slot_ok (st_proxies st).
+Proof. first [ exact C02.C02_tcp_slot_reachable | intros; eapply C02.C02_tcp_slot_reachable; eassumption ]. Qed.
+Theorem C02_independent_of_pins : forall e from m x pins' rr' gen' l',
+  is_response m = true -> fx_udp_via_listener (e_fx e) = true -> udp_known (x_p x) ->
+  let y := {| x_learned := l'; x_p := graft pins' rr' gen' (x_p x); x_conns := x_conns x;
+              x_world := x_world x; x_outs := x_outs x |} in
+  x_outs (fst (handle_message e from m y)) = x_outs (fst (handle_message e from m x)) /\
+  x_conns (fst (handle_message e from m y)) = x_conns (fst (handle_message e from m x)) /\
+  x_world (fst (handle_message e from m y)) = x_world (fst (handle_message e from m x)).
+Proof. first [ exact C02.C02_independent_of_pins | intros; eapply C02.C02_independent_of_pins; eassumption ]. Qed.
+Theorem C02_roundtrip_return : forall e from r x br t0 src sport v rest t,
+  is_response r = true -> (int_min <= sport <= int_max)%Z ->
+  via_hdrs r = Some [own_via br t0] :: Some (stamp src sport v :: rest) :: t ->
+  exists m4 pins',
+    handle_message e from r x =
+      send_message e src (if kv_has (s2b "rport") (v_params v) then sport else via_get_port v) (v_transport v) m4
+        {| x_learned := x_learned x; x_p := with_pins (x_p x) pins'; x_conns := x_conns x;
+           x_world := x_world x; x_outs := x_outs x |} /\
+    via_hdrs m4 = Some (stamp src sport v :: rest) :: t.
+Proof. first [ exact C02.C02_roundtrip_return | intros; eapply C02.C02_roundtrip_return; eassumption ]. Qed.
+Theorem C02_roundtrip : forall e src sport from tcp q x x' v rest t,
+  is_request q = true -> via_hdrs q = Some (v :: rest) :: t -> (int_min <= sport <= int_max)%Z ->
+  process_message e src sport from true tcp q x = Ok x' ->
+  exists outs, x_outs x' = x_outs x ++ outs /\
+    Forall (fun o =>
+      match fst o with
+      | DDial _ _ _ => snd o = []
+      | _ => exists q', snd o = write_message q' /\
+          (via_hdrs q' = Some (stamp src sport v :: rest) :: t
+           \/ exists t0, via_hdrs q' = Some [own_via (e_branch e) t0] :: Some (stamp src sport v :: rest) :: t /\
+                forall e2 from2 r y, is_response r = true -> via_hdrs r = via_hdrs q' ->
+                  exists m4 pins',
+                    handle_message e2 from2 r y =
+                      send_message e2 src (if kv_has (s2b "rport") (v_params v) then sport else via_get_port v)
+                        (v_transport v) m4
+                        {| x_learned := x_learned y; x_p := with_pins (x_p y) pins'; x_conns := x_conns y;
+                           x_world := x_world y; x_outs := x_outs y |} /\
+                    via_hdrs m4 = Some (stamp src sport v :: rest) :: t)
+      end) outs.
+Proof. first [ exact C02.C02_roundtrip | intros; eapply C02.C02_roundtrip; eassumption ]. Qed.
+Theorem C02_process_response : forall e peer port from rs tcp m0 x x',
+  is_response m0 = true ->
+  process_message e peer port from rs tcp m0 x = Ok x' ->
+  match top_view (pop_view (via_hdrs m0)) with
+  | Some v2 =>
+      exists m4 pins',
+        x' = fst (send_message e (hop_host v2) (hop_port v2) (v_transport v2) m4
+                   {| x_learned := x_learned x; x_p := with_pins (x_p x) pins'; x_conns := x_conns x;
+                      x_world := x_world x; x_outs := x_outs x |}) /\
+        m_start m4 = m_start m0 /\ m_body m4 = m_body m0 /\ via_hdrs m4 = pop_view (via_hdrs m0)
+  | None => x_outs x' = x_outs x /\ x_conns x' = x_conns x /\ x_world x' = x_world x /\ x_learned x' = x_learned x
+  end.
+Proof. first [ exact C02.C02_process_response | intros; eapply C02.C02_process_response; eassumption ]. Qed.
+End P_C02.
